@@ -186,9 +186,16 @@ class Monitor(Job):
                     check(len([e for e in log if e[0] == "send" and e[1] == "Ping"]) == nping, "ping sent without a connection")
                     check(m._my_role is LEADER and MGR.Manager.m is not None, "x")
                     # FLUSHING -> peer says reconnecting -> CONNECTING -> new connection: monitoring resumes
-                    m.rx_RECONNECTING()
-                    c2 = FakeConn(clock, log)
-                    m.connector_connection_made(c2)
+                    try:
+                        m.rx_RECONNECTING()
+                        c2 = FakeConn(clock, log)
+                        m.connector_connection_made(c2)
+                    except (core.Escape, core.Inconclusive, core._Abort, core.Counterexample):
+                        raise
+                    except Exception as e:
+                        core.check_leak(e)
+                        check(False, "monitoring did not resume on the next connection: %s raised" % type(e).__name__)
+                        return
                     check(m._timer is not None and m._timer.active(), "monitoring did not resume on the next connection")
                     eng().note("nt:lost-quiet")
                     pongs = []
@@ -277,8 +284,11 @@ class Monitor(Job):
                     clock.advance(5 * I)
                     if len([e for e in log if e[0] == "send" and e[1] == "Ping"]) != npings:
                         return "interval %r: ping sent without a connection" % (I,)
-                    m.rx_RECONNECTING()
-                    m.connector_connection_made(FakeConn(clock, log))
+                    try:
+                        m.rx_RECONNECTING()
+                        m.connector_connection_made(FakeConn(clock, log))
+                    except Exception as e:
+                        return "interval %r: monitoring did not resume on the next connection: %r raised" % (I, e)
                     if m._timer is None or not m._timer.active():
                         return "interval %r: monitoring did not resume on the next connection" % (I,)
                     pongs = []
